@@ -344,6 +344,7 @@ def check_C15(tier, seed):
     for lab, t, der, exp in extra_bad:
         tool_cases.append((lab, t, 1))
     ntool = 0
+    real_header = None
     td = os.path.join(wd, "tools")
     os.makedirs(td)
     for k, (lab, t, want) in enumerate(tool_cases):
@@ -378,6 +379,29 @@ def check_C15(tier, seed):
                 if (again == 2 and not so2.startswith("ERR")) or (again == 3 and p.returncode != 1):
                     out.violation("compile-run:error-swallowed-on-repeat", "run #%d of the build-script helper on the same rejected grammar and destination no longer reports the failure (%s): %r rc=%s" % (again, lab, so2[:80], p.returncode),
                                   {"grammar_text": t, "rc": p.returncode, "run": again})
+        if want == 0 and os.path.exists(dest) and real_header is None:
+            with open(dest, encoding="utf-8", errors="replace") as f:
+                real_header = f.read(400)
+        # the destination may already be there in any state (an empty placeholder, the cut-off output of an interrupted
+        # build, the complete output of an older grammar): the answer for the current grammar must not depend on it
+        hdr = real_header or "// This file was generated by Peginator v0.7.0 built at 1\n"
+        nl1 = hdr.find("\n") + 1
+        for plab, pre in (("empty file", ""), ("a single newline", "\n"), ("the start of a header line", hdr[:28]), ("the first header line", hdr[:nl1]),
+                          ("a header cut inside its second line", hdr[:nl1 + 20]), ("output of another grammar", hdr[:nl1] + "// CRC-32/ISO-HDLC of the grammar file: 00000000\n// Any changes to it will be lost on regeneration\n\npub struct Old;\n")):
+            with open(dest, "w", encoding="utf-8") as f:
+                f.write(pre)
+            p = subprocess.run([bs, "run", gp, dest, "-", "-", "0", "-"], stdout=subprocess.PIPE, stderr=subprocess.PIPE, env=build.BASE_ENV, timeout=120)
+            ntool += 1
+            so3 = p.stdout.decode("utf-8", "replace").strip()
+            if want == 1 and not so3.startswith("ERR"):
+                out.violation("compile-run:error-hidden-by-existing-destination", "Compile::run did not return Err for a rejected grammar (%s) when the destination already held %s: %r rc=%s" % (lab, plab, so3[:80], p.returncode),
+                              {"grammar_text": t, "destination_before": pre, "rc": p.returncode})
+            if want == 0:
+                with open(dest, encoding="utf-8", errors="replace") as f:
+                    now = f.read()
+                if so3 != "OK" or "peginator_generated" not in now:
+                    out.violation("compile-run:valid-grammar-not-compiled", "Compile::run on a valid grammar with the destination holding %s: result %r, destination %s the generated code" % (plab, so3[:80], "has" if "peginator_generated" in now else "does not have"),
+                                  {"grammar_text": t, "destination_before": pre})
         if os.path.exists(dest):
             os.remove(dest)
         p = subprocess.run([bs, "run_exit", gp, dest, "-", "-", "0", "-"], stdout=subprocess.PIPE, stderr=subprocess.PIPE, env=build.BASE_ENV, timeout=120)
